@@ -21,15 +21,58 @@ func init() {
 			"it starts a fragment. (L2) tryReassemble calls collectAndWrite only when the byte count of the " +
 			"collected frames reaches the announced packet length, and gives up on a frame that has its own " +
 			"packet start before that; collectAndWrite sends the buffer only when its length equals the " +
-			"announced packet length. NOT decided: that the stitched byte ranges are the right ones " +
-			"(offsets inside frames), the encoder side, in-order loss-free equality of the streams.",
+			"announced packet length. Encoder side: (N1) a typestate of encoder.pkt explored path-sensitively " +
+			"over encoder.Read and across calls (what a return leaves in e.pkt is the initial state of the next " +
+			"call): the first bytes of a packet fetched from the ring are copied into a frame only after the " +
+			"frame's index field was written in that call with position-minus-header, and only after the packet " +
+			"passed the complete IPv4 (len>=20, total length == len) or IPv6 (len>=40, 40+payload == len) " +
+			"validation ('invalid packets are never encapsulated'); the infeasible path 'invalid packet, " +
+			"continue, frame full' is excluded by a checked loop invariant (the position changes only by what " +
+			"copyToFrame returns). (N2) copyToFrame moves min(room, rest) bytes from the front of e.pkt to the " +
+			"old end of e.frame, drops them from e.pkt and returns their count. NOT decided: that the stitched " +
+			"byte ranges are the right ones on the receiver (offsets inside frames in framebuf.go / worker.go), " +
+			"and therefore not the in-order loss-free equality of the two streams as a whole.",
 		Run: runC41,
 	})
 	setClaim("C41", claim{
 		Text: "Frames join a reassembly only with sequence number last+1; discard paths release and reset; a " +
-			"reassembled packet is emitted only with the announced length.",
-		Note: claimNote, Technique: "static analysis: guard dominance on the append / emit sites, call pairing on the discard paths",
+			"reassembled packet is emitted only with the announced length; the encoder starts a packet in a frame " +
+			"only behind an index write and a complete IP validation.",
+		Note: claimNote, Technique: "static analysis: guard dominance on the append / emit sites, call pairing on the discard paths, " +
+			"path-sensitive typestate (predicate tracking) of encoder.pkt across Read calls",
 		Ref: "DESIGN.md §0.5 C41"})
+	ef := "gateway/dataplane/encoder.go"
+	addMutants(
+		Mutant{Prop: "C41", Name: "whole-packet-deferred-to-next-frame", File: ef,
+			Old: `		// Set the first packet index in the frame header if appropriate.`,
+			New: `		if pos > hdrLen && cap(e.frame)-pos < len(e.pkt) {
+			return e.frame[:pos]
+		}
+		// Set the first packet index in the frame header if appropriate.`, Expect: "N1-encoder-typestate"},
+		Mutant{Prop: "C41", Name: "ipv6-length-not-checked", File: ef,
+			Old: `			if length != len(e.pkt) {
+				continue
+			}
+		default:`, New: `			_ = length
+		default:`, Expect: "N1-encoder-typestate"},
+		Mutant{Prop: "C41", Name: "ipv4-short-header-accepted", File: ef,
+			Old: `			if len(e.pkt) < 20 {`, New: `			if len(e.pkt) < 4 {`, Expect: "N1-encoder-typestate"},
+		Mutant{Prop: "C41", Name: "index-only-on-later-packets", File: ef,
+			Old: `		if !indexSet {`, New: `		if indexSet {`, Expect: "N1-encoder-typestate"},
+		Mutant{Prop: "C41", Name: "other-ip-versions-encapsulated", File: ef,
+			Old: `		default:
+			continue
+		}
+		// Set the first`, New: `		default:
+		}
+		// Set the first`, Expect: "N1-encoder-typestate"},
+		Mutant{Prop: "C41", Name: "index-is-absolute-position", File: ef,
+			Old: `uint16(pos-hdrLen))`, New: `uint16(pos))`, Expect: "N1-encoder-typestate"},
+		Mutant{Prop: "C41", Name: "chunk-is-max", File: ef,
+			Old: `	if len(e.pkt) < toCopy {`, New: `	if len(e.pkt) > toCopy {`, Expect: "N2-copy-chunk"},
+		Mutant{Prop: "C41", Name: "packet-rest-not-advanced", File: ef,
+			Old: `	e.pkt = e.pkt[toCopy:]`, New: `	e.pkt = e.pkt[len(e.pkt):]`, Expect: "N2-copy-chunk"},
+	)
 	rf := "gateway/dataplane/rlist.go"
 	addMutants(
 		Mutant{Prop: "C41", Name: "gap-tolerated", File: rf,
@@ -56,6 +99,7 @@ func init() {
 }
 
 func runC41(c *Ctx) {
+	c41Encoder(c)
 	lT := "(*gateway/dataplane.reassemblyList)"
 	if v := c.View(lT + ".Insert"); v != nil {
 		rule := "L1-consecutive-frames"
